@@ -1434,6 +1434,12 @@ def compute_keypoints(values,
     if weights is not None:
       weights = np.append(weights, 0)
 
+  # If no weighted observation is left (e.g. all values were equal to
+  # default_value and only the zero-weight clip bounds remain), weighted
+  # quantiles are undefined (0/0). Fall back to the unweighted statistics.
+  if weights is not None and not np.any(weights):
+    weights = None
+
   # We do not allow nans in the data, even as default_value.
   if np.isnan(values).any():
     raise ValueError(
